@@ -7,14 +7,16 @@
 (*   Complete  at Accepted every block of the file is covered by a signature / MAC / key-wrap check, the whole *)
 (*             event list was consumed and the decoded section / command structure equals the shape,           *)
 (*   Sound     covered blocks lie inside the file; HMAC chunks never overlap what is already covered,          *)
-(*   Tamper    a file in which ONE block is corrupted (every check whose range contains it reports FALSE) is   *)
-(*             never accepted.                                                                                 *)
+(*   Tamper    a file in which ONE block is corrupted (every check whose range contains it reports FALSE), a   *)
+(*             TRUNCATED file (cut in front of any block of a representative shape, at every structural        *)
+(*             boundary of every shape; read with or without knowledge of the file length) and an EXTENDED     *)
+(*             file (blocks appended) are never accepted.                                                      *)
 (* GEN (GenInit): the same shape space is printed as JSON; the harness builds real files of exactly these      *)
 (* shapes through SPSDK's public classes.                                                                      *)
 EXTENDS Sb2Rom, Json, IOUtils
 CONSTANTS MaxSecs, MaxHm, MaxCmds, MaxPay, Chains
-VARIABLES shape, evs, i, bad
-vars == <<st, hdr, cur, sec, needCert, hm, body, left, cmdAt, cov, certEnd, sigEnd, macSum, dec, shape, evs, i, bad>>
+VARIABLES shape, evs, i, tam
+vars == <<st, hdr, cur, sec, needCert, hm, body, left, cmdAt, cov, certEnd, sigEnd, macSum, dec, shape, evs, i, tam>>
 
 \* certificate chains of the key pool: <<number of certificates, certificate-table length in bytes, signature length>>
 \* (the harness checks these numbers against the files in keys/ before it uses the shapes)
@@ -48,75 +50,101 @@ Flags(sh) == CASE sh.ver = "20u" -> FlagUnsigned [] sh.ver = "20s" -> FlagSigned
 CertOff(sh) == CASE sh.ver = "21" -> Prefix * 16 [] sh.ver = "20s" -> (Prefix + 5) * 16 [] OTHER -> 0
 MaxMac(sh) == SumTo([k \in 1..Len(sh.secs) |-> SecHm(sh.secs[k])], Len(sh.secs)) + (IF sh.ver = "20s" THEN 1 ELSE 0)
 
-\* does the half-open block range [a, b) contain the corrupted block?
-Hit(a, b) == bad >= a /\ bad < b
-Good(a, b) == ~Hit(a, b)
+\* ---- corruption classes.  t = [k, n]:
+\*   "none"    the file as written
+\*   "block"   block n is corrupted: every check whose range contains it reports FALSE
+\*   "cut"     TRUNCATION: the file ends in front of block n (n blocks are left); the reader knows how long the file is
+\*   "stream"  the same truncated file, read by a loader that does NOT know its length (the ROM receives the file as a stream): the header is
+\*             taken at its word, every check whose range reaches behind the cut reports FALSE (the data is not there)
+\*   "ext"     EXTENSION: n blocks appended behind the last block
+NoTam == [k |-> "none", n |-> 0]
+Hit(t, a, b) == t.k = "block" /\ t.n >= a /\ t.n < b                \* does the half-open block range [a, b) contain the corrupted block?
+Missing(t, b) == t.k \in {"cut", "stream"} /\ b > t.n               \* does a range that ends in front of block b reach behind the cut?
+Good(t, a, b) == ~Hit(t, a, b) /\ ~Missing(t, b)
 
-EvHeader(sh) == [ev |-> "ParseHeader", longEnough |-> TRUE, sig1ok |-> TRUE, sig2ok |-> TRUE, fileRem |-> 0, major |-> 2,
+EvHeader(sh, t) == [ev |-> "ParseHeader", longEnough |-> ~Missing(t, Prefix), sig1ok |-> TRUE, sig2ok |-> TRUE, fileRem |-> 0, major |-> 2,
                  minor |-> IF sh.ver = "21" THEN 1 ELSE 0, hdrBlocks |-> 6, kbBlock |-> 8, kbCount |-> 5, flags |-> Flags(sh),
-                 certOff |-> CertOff(sh), imageBlocks |-> ImageBlocks(sh), fileBlocks |-> FileBlocks(sh), firstTag |-> FirstTag(sh),
-                 firstId |-> <<0, 1>>, maxMac |-> MaxMac(sh)]
-EvUnwrap == [ev |-> "UnwrapKeyBlob", at |-> 8, n |-> 5, ok |-> Good(8, 13)]
-EvCert(sh, at) == [ev |-> "ParseCertBlock", hdrOk |-> TRUE, at |-> at, chainOk |-> TRUE, rootInTable |-> TRUE, count |-> ChainTab[sh.chain][1],
-                   rootIdx |-> 0, tableLen |-> ChainTab[sh.chain][2], walkedLen |-> ChainTab[sh.chain][2], endOff |-> at + CertLen(sh), imgLen |-> at + CertLen(sh)]
-EvSig21(sh) == LET to == Prefix * 16 + CertLen(sh) + ShaLen(sh) IN
-               [ev |-> "VerifySignature", frm |-> 0, to |-> to, sigAt |-> to, sigLen |-> SigLen(sh), ok |-> Good(0, (to + SigLen(sh)) \div 16)]
-EvSha(sh) == [ev |-> "CheckSha", at |-> Prefix * 16 + CertLen(sh), frm |-> FirstTag(sh) * 16, to |-> FileBlocks(sh) * 16,
-              ok |-> Good(FirstTag(sh), FileBlocks(sh)) /\ Good((Prefix * 16 + CertLen(sh)) \div 16, (Prefix * 16 + CertLen(sh)) \div 16 + 2)]
-EvSig20(sh) == [ev |-> "VerifySignature", frm |-> 0, to |-> ImageBlocks(sh) * 16, sigAt |-> ImageBlocks(sh) * 16, sigLen |-> SigLen(sh),
-                ok |-> Good(0, FileBlocks(sh))]
-EvHdrMac20 == [ev |-> "CheckHeaderMac", over |-> <<0, 96>>, ok |-> Good(0, 8)]
-EvHdrMac21(at, n) == [ev |-> "CheckHeaderMac", over |-> <<(at + 1) * 16, (at + 3 + 2 * n) * 16>>, ok |-> Good(6, 8) /\ Good(at + 1, at + 3 + 2 * n)]
+                 certOff |-> CertOff(sh), imageBlocks |-> ImageBlocks(sh),
+                 fileBlocks |-> CASE t.k = "cut" -> t.n [] t.k = "ext" -> FileBlocks(sh) + t.n [] OTHER -> FileBlocks(sh),
+                 firstTag |-> FirstTag(sh), firstId |-> <<0, 1>>, maxMac |-> MaxMac(sh)]
+EvUnwrap(t) == [ev |-> "UnwrapKeyBlob", at |-> 8, n |-> 5, ok |-> Good(t, 8, 13)]
+EvCert(sh, at, t) == [ev |-> "ParseCertBlock", hdrOk |-> ~Missing(t, (at + CertLen(sh)) \div 16), at |-> at, chainOk |-> TRUE, rootInTable |-> TRUE,
+                   count |-> ChainTab[sh.chain][1], rootIdx |-> 0, tableLen |-> ChainTab[sh.chain][2], walkedLen |-> ChainTab[sh.chain][2],
+                   endOff |-> at + CertLen(sh), imgLen |-> at + CertLen(sh)]
+EvSig21(sh, t) == LET to == Prefix * 16 + CertLen(sh) + ShaLen(sh) IN
+               [ev |-> "VerifySignature", frm |-> 0, to |-> to, sigAt |-> to, sigLen |-> SigLen(sh), ok |-> Good(t, 0, (to + SigLen(sh)) \div 16)]
+\* the digest covers everything from the first boot tag to the END OF THE FILE: appended blocks change it
+EvSha(sh, t) == [ev |-> "CheckSha", at |-> Prefix * 16 + CertLen(sh), frm |-> FirstTag(sh) * 16,
+              to |-> (CASE t.k = "cut" -> t.n [] t.k = "ext" -> FileBlocks(sh) + t.n [] OTHER -> FileBlocks(sh)) * 16,
+              ok |-> /\ Good(t, FirstTag(sh), FileBlocks(sh)) /\ t.k # "ext"
+                     /\ Good(t, (Prefix * 16 + CertLen(sh)) \div 16, (Prefix * 16 + CertLen(sh)) \div 16 + 2)]
+EvSig20(sh, t) == [ev |-> "VerifySignature", frm |-> 0, to |-> ImageBlocks(sh) * 16, sigAt |-> ImageBlocks(sh) * 16, sigLen |-> SigLen(sh),
+                ok |-> Good(t, 0, FileBlocks(sh))]
+EvHdrMac20(t) == [ev |-> "CheckHeaderMac", over |-> <<0, 96>>, ok |-> Good(t, 0, 8)]
+EvHdrMac21(at, n, t) == [ev |-> "CheckHeaderMac", over |-> <<(at + 1) * 16, (at + 3 + 2 * n) * 16>>, ok |-> Good(t, 6, 8) /\ Good(t, at + 1, at + 3 + 2 * n)]
 
 \* events of one section whose tag block is `at`; n table entries; body of `count` blocks
-EvTag(sno, at, count, n, cert, uid) ==
-  [ev |-> "SectionTag", sec |-> sno, at |-> at, ctrOff |-> at, sane |-> TRUE, chkOk |-> Good(at, at + 1), tagIsTag |-> TRUE,
-   tagHmacOk |-> Good(at, at + 3), count |-> count, hmacCount |-> n, cert |-> cert, markOk |-> TRUE,
+EvTag(sno, at, count, n, cert, uid, t) ==
+  [ev |-> "SectionTag", sec |-> sno, at |-> at, ctrOff |-> at, sane |-> TRUE, chkOk |-> Good(t, at, at + 1), tagIsTag |-> TRUE,
+   tagHmacOk |-> Good(t, at, at + 3), count |-> count, hmacCount |-> n, cert |-> cert, markOk |-> TRUE,
    flags |-> IF cert THEN 32770 ELSE 32769, uid |-> uid]
-EvHmacs(sno, at, count, n) ==
+EvHmacs(sno, at, count, n, t) ==
   LET per == count \div n  b == at + 3 + 2 * n IN
   [k \in 1..n |-> LET first == b + (k - 1) * per  nb == IF k = n THEN count - per * (n - 1) ELSE per IN
                   [ev |-> "SectionHmac", sec |-> sno, k |-> k - 1, entryAt |-> at + 3 + 2 * (k - 1), firstBlk |-> first, nBlk |-> nb,
-                   ok |-> Good(at + 3 + 2 * (k - 1), at + 5 + 2 * (k - 1)) /\ Good(first, first + nb)]]
-EvCmds(s, sno, b) ==
+                   ok |-> Good(t, at + 3 + 2 * (k - 1), at + 5 + 2 * (k - 1)) /\ Good(t, first, first + nb)]]
+EvCmds(s, sno, b, t) ==
   LET cb == CmdBlocks(s) IN
   [j \in 1..Len(s.cmds) |->
      LET at == b + SumTo(cb, j - 1) IN
-     [ev |-> "Cmd", sec |-> sno, i |-> j - 1, at |-> at, chkOk |-> Good(at, at + 1), nBlk |-> cb[j],
-      tag |-> IF s.cmds[j] = 0 THEN 8 ELSE 2, crcOk |-> Good(at + 1, at + cb[j]),
+     [ev |-> "Cmd", sec |-> sno, i |-> j - 1, at |-> at, chkOk |-> Good(t, at, at + 1), nBlk |-> cb[j],
+      tag |-> IF s.cmds[j] = 0 THEN 8 ELSE 2, crcOk |-> Good(t, at + 1, at + cb[j]),
       cnt |-> <<0, IF s.cmds[j] = 0 THEN 0 ELSE 16 * s.cmds[j] - 5>>, payloadLen |-> 16 * s.cmds[j],
       flags |-> 0, addr |-> <<0, 0>>, dat |-> <<0, 0>>, payload |-> <<>>]]
-EvSection(sh, j) ==
+EvSection(sh, j, t) ==
   LET s == sh.secs[j]  at == SecStart(sh, j)  n == SecHm(s)  count == SecCount(s) IN
-  <<EvTag(j - 1, at, count, n, FALSE, IF j = 1 THEN <<0, 1>> ELSE <<0, 7>>)>>
-  \o (IF sh.ver = "21" /\ j = 1 THEN <<EvHdrMac21(at, n)>> ELSE <<>>)
-  \o EvHmacs(j - 1, at, count, n) \o EvCmds(s, j - 1, at + 3 + 2 * n)
+  <<EvTag(j - 1, at, count, n, FALSE, IF j = 1 THEN <<0, 1>> ELSE <<0, 7>>, t)>>
+  \o (IF sh.ver = "21" /\ j = 1 THEN <<EvHdrMac21(at, n, t)>> ELSE <<>>)
+  \o EvHmacs(j - 1, at, count, n, t) \o EvCmds(s, j - 1, at + 3 + 2 * n, t)
   \o <<[ev |-> "SectionEnd", sec |-> j - 1, next |-> at + SecBlocks(s)]>>
-EvSections(sh) == LET F[j \in 0..Len(sh.secs)] == IF j = 0 THEN <<>> ELSE F[j - 1] \o EvSection(sh, j) IN F[Len(sh.secs)]
-EvCertSection(sh) ==
+EvSections(sh, t) == LET F[j \in 0..Len(sh.secs)] == IF j = 0 THEN <<>> ELSE F[j - 1] \o EvSection(sh, j, t) IN F[Len(sh.secs)]
+EvCertSection(sh, t) ==
   LET count == CertLen(sh) \div 16 IN
-  <<EvTag(0 - 1, Prefix, count, 1, TRUE, <<28263, 26995>>)>> \o EvHmacs(0 - 1, Prefix, count, 1)
-  \o <<EvCert(sh, (Prefix + 5) * 16), [ev |-> "SectionEnd", sec |-> 0 - 1, next |-> Prefix + 5 + count]>>
-Ideal(sh) ==
-  <<EvHeader(sh), EvUnwrap>>
-  \o (CASE sh.ver = "21"  -> <<EvCert(sh, Prefix * 16), EvSig21(sh)>> \o (IF sh.sha THEN <<EvSha(sh)>> ELSE <<>>)
-        [] sh.ver = "20s" -> <<EvHdrMac20>> \o EvCertSection(sh)
-        [] sh.ver = "20u" -> <<EvHdrMac20>>)
-  \o EvSections(sh)
-  \o (IF sh.ver = "20s" THEN <<EvSig20(sh)>> ELSE <<>>)
+  <<EvTag(0 - 1, Prefix, count, 1, TRUE, <<28263, 26995>>, t)>> \o EvHmacs(0 - 1, Prefix, count, 1, t)
+  \o <<EvCert(sh, (Prefix + 5) * 16, t), [ev |-> "SectionEnd", sec |-> 0 - 1, next |-> Prefix + 5 + count]>>
+Ideal(sh, t) ==
+  <<EvHeader(sh, t), EvUnwrap(t)>>
+  \o (CASE sh.ver = "21"  -> <<EvCert(sh, Prefix * 16, t), EvSig21(sh, t)>> \o (IF sh.sha THEN <<EvSha(sh, t)>> ELSE <<>>)
+        [] sh.ver = "20s" -> <<EvHdrMac20(t)>> \o EvCertSection(sh, t)
+        [] sh.ver = "20u" -> <<EvHdrMac20(t)>>)
+  \o EvSections(sh, t)
+  \o (IF sh.ver = "20s" THEN <<EvSig20(sh, t)>> ELSE <<>>)
   \o <<[ev |-> "Accept", cur |-> ImageBlocks(sh), nSections |-> Len(sh.secs)]>>
+
+\* the structural boundaries of a layout: every position the events of its untampered walk speak of (Sb2Rom!BoundsOf)
+Bounds(sh) == BoundsOfAll(Ideal(sh, NoTam)) \ {FileBlocks(sh)}
+\* a few representative shapes are tampered with: every section of a representative shape is the canonical section of the constant set.
+\*   one section:    every block corrupted
+\*   1..MaxSecs:     TRUNCATION in front of every structural boundary, one block earlier and one block later (read with and without knowledge of
+\*                   the file length); EXTENSION by 1..3 blocks
+CanonCmds == [j \in 1..MaxCmds |-> j % (MaxPay + 1)]
+Representative(sh) == \A j \in 1..Len(sh.secs) : sh.secs[j].hm = MaxHm /\ sh.secs[j].cmds = CanonCmds
+Near(B, n) == {b \in B \cup {x + 1 : x \in B} \cup {x - 1 : x \in B} : b >= 0 /\ b < n}
+Tampers(sh) ==
+  {NoTam}
+  \cup (IF Representative(sh) /\ Len(sh.secs) = 1 THEN {[k |-> "block", n |-> b] : b \in 0..(FileBlocks(sh) - 1)} ELSE {})
+  \cup (IF Representative(sh)
+        THEN {[k |-> kk, n |-> c] : kk \in {"cut", "stream"}, c \in Near(Bounds(sh), FileBlocks(sh))} \cup {[k |-> "ext", n |-> x] : x \in 1..3}
+        ELSE {})
 
 \* ---- the automaton driven by the ideal events
 Evs == evs
 Ev == Evs[i]
 At(name) == i <= Len(Evs) /\ Ev.ev = name
-Step == i' = i + 1 /\ UNCHANGED <<shape, evs, bad>>
-\* bad = -1: untampered file;  bad = b: block b is corrupted (only a few representative shapes are tampered, all of their blocks)
+Step == i' = i + 1 /\ UNCHANGED <<shape, evs, tam>>
 Init == /\ RInit /\ shape \in Shapes /\ i = 1
-        /\ bad \in {0 - 1} \cup (IF Len(shape.secs) = 1 /\ shape.secs[1].hm = MaxHm /\ Len(shape.secs[1].cmds) = MaxCmds
-                                   /\ \A j \in 1..MaxCmds : shape.secs[1].cmds[j] = (j % (MaxPay + 1))
-                                 THEN 0..(FileBlocks(shape) - 1) ELSE {})
-        /\ evs = Ideal(shape)
+        /\ tam \in Tampers(shape)
+        /\ evs = Ideal(shape, tam)
 DoParseHeader == At("ParseHeader") /\ ParseHeader(Ev) /\ Step
 DoUnwrap == At("UnwrapKeyBlob") /\ UnwrapKeyBlob(Ev) /\ Step
 DoHdrMac20 == At("CheckHeaderMac") /\ CheckHeaderMac20(Ev) /\ Step
@@ -132,13 +160,13 @@ DoCmd == At("Cmd") /\ Cmd(Ev) /\ Step
 DoSectionEnd == At("SectionEnd") /\ SectionEnd(Ev) /\ Step
 DoAccept == At("Accept") /\ Accept(Ev) /\ Step /\ (Gen => PrintT(ToJson(shape)))
 \* terminal states: accepted, or - for a tampered file - stopped at the first false fact
-Done == (st = "Accepted" \/ (bad >= 0 /\ i <= Len(Evs))) /\ UNCHANGED vars
+Done == (st = "Accepted" \/ (tam.k # "none" /\ i <= Len(Evs))) /\ UNCHANGED vars
 Next == DoParseHeader \/ DoUnwrap \/ DoHdrMac20 \/ DoHdrMac21 \/ DoCert21 \/ DoCert20 \/ DoSig21 \/ DoSig20 \/ DoSha \/ DoTag \/ DoHmac
         \/ DoCmd \/ DoSectionEnd \/ DoAccept \/ Done
 
 \* ---- GEN: TLC enumerates the shape space itself (initial states only); that the automaton accepts every one of them is what the MC run
 \* over the same constants establishes (the harness compares the two counts)
-GenInit == RInit /\ shape \in Shapes /\ i = 1 /\ bad = 0 - 1 /\ evs = <<>> /\ PrintT(ToJson(shape))
+GenInit == RInit /\ shape \in Shapes /\ i = 1 /\ tam = NoTam /\ evs = <<>> /\ PrintT(ToJson(shape))
 GenNext == UNCHANGED vars
 
 \* ---- lemmas
@@ -150,8 +178,16 @@ Complete == st = "Accepted" =>
                                         /\ dec[s].hmacCount = SecHm(shape.secs[s])
 Sound == cov \subseteq Blocks(0, FileBlocks(shape)) /\ cur <= ImageBlocks(shape)
 \* an untampered ideal file is never refused: every non-terminal state has the successor named by its next event (checked as deadlock freedom,
-\* Done being enabled only in accepted states when bad = -1)
-Tamper == bad >= 0 => st # "Accepted"
+\* Done being enabled only in accepted states when tam = NoTam)
+Tamper == tam.k # "none" => st # "Accepted"
+\* ... and a truncated file is noticed even by a loader that cannot compare the header with the length of the file: it stops at a check that
+\* reports FALSE, in front of the first block that is missing (it never acts on a section that is not completely there)
+StreamStops == tam.k = "stream" => cur <= tam.n
+\* the boundaries promised to the trace form: behind header, header MAC, key blob; every section start and end (checked once, on the shape)
+BoundsReach == (i = 1 /\ tam = NoTam) =>
+               /\ {0, 6, 8, 13} \subseteq Bounds(shape) \cup {FileBlocks(shape)}
+               /\ \A j \in 1..Len(shape.secs) : {SecStart(shape, j), SecStart(shape, j) + 3} \subseteq Bounds(shape)
+               /\ ImageBlocks(shape) \in Bounds(shape) \cup {FileBlocks(shape)}
 \* each HMAC chunk covers fresh blocks only (the table partitions the body)
 FreshChunks == [][(st = "Hmac" /\ i <= Len(Evs) /\ Ev.ev = "SectionHmac" /\ i' = i + 1) =>
                     Blocks(Ev.firstBlk, Ev.firstBlk + Ev.nBlk) \cap cov = {}]_vars
